@@ -83,6 +83,33 @@ def select(fn, sel):
     elif kind == "return":
         _, k = sel
         hits = [st.value for st in sts if isinstance(st, ast.Return) and st.value is not None]
+    elif kind == "ifchain":             # k-th `if` statement with its elif / else arms: [(test | None, [appended items])]
+        _, k = sel
+        ifs = [st for st in sts if isinstance(st, ast.If)]
+        # (an `elif` is itself an If inside orelse: take only chain heads)
+        heads = [st for st in ifs if not any(st in getattr(o, "orelse", []) for o in ifs)]
+        if k >= len(heads):
+            raise Untranslatable("selector %r: only %d candidate(s)" % (sel, len(heads)))
+
+        def items(body):
+            out = []
+            for b in body:
+                if isinstance(b, ast.Expr) and isinstance(b.value, ast.Call) and isinstance(b.value.func, ast.Attribute) \
+                        and b.value.func.attr in ("append", "extend") and len(b.value.args) == 1:
+                    a = b.value.args[0]
+                    out += list(a.elts) if (b.value.func.attr == "extend" and isinstance(a, (ast.List, ast.Tuple))) else [a]
+                else:
+                    raise Untranslatable("arm statement %r is not an append / extend" % ast.unparse(b))
+            return out
+        chain, node = [], heads[k]
+        while True:
+            chain.append((node.test, items(node.body)))
+            if len(node.orelse) == 1 and isinstance(node.orelse[0], ast.If):
+                node = node.orelse[0]
+                continue
+            chain.append((None, items(node.orelse)))
+            break
+        return chain
     elif kind == "if":                  # k-th `if` statement: its test
         _, k = sel
         hits = [st.test for st in sts if isinstance(st, ast.If)]
@@ -97,10 +124,34 @@ BIN = {ast.Add: "+", ast.Sub: "-", ast.Mult: "*", ast.Div: "/"}
 CMP = {ast.Lt: "<", ast.Gt: ">", ast.LtE: "≤", ast.GtE: "≥"}
 
 
+def lean_chain(chain, vm):
+    """if / elif / else arms that append to a list -> nested Lean `if … then [..] else …`"""
+    def prop(t):
+        if isinstance(t, ast.Compare) and len(t.ops) == 1:
+            op = {ast.Eq: "=", ast.Lt: "<", ast.Gt: ">", ast.LtE: "≤", ast.GtE: "≥", ast.NotEq: "≠"}.get(type(t.ops[0]))
+            if op:
+                return "(%s %s %s)" % (lean_expr(t.left, vm), op, lean_expr(t.comparators[0], vm))
+        raise Untranslatable("cannot translate the test %r" % ast.unparse(t))
+    out = ""
+    for test, its in chain:
+        lst = "[" + ", ".join(lean_expr(i, vm) for i in its) + "]"
+        if test is None:
+            return out + lst
+        out += "if %s then %s else " % (prop(test), lst)
+    return out + "[]"
+
+
+CALLS = {"get_relation": lambda a, b: "(getRelation %s.cv %s.cv %s.f %s.f)" % (a, b, a, b)}
+
+
 def lean_expr(e, vm):
+    if isinstance(e, list):
+        return lean_chain(e, vm)
     s = ast.unparse(e)
     if s in vm:
         return vm[s]
+    if isinstance(e, ast.Call) and isinstance(e.func, ast.Name) and e.func.id in CALLS and not e.keywords:
+        return CALLS[e.func.id](*[lean_expr(a, vm) for a in e.args])
     if isinstance(e, ast.BinOp):
         if type(e.op) in BIN:
             return "(%s %s %s)" % (lean_expr(e.left, vm), BIN[type(e.op)], lean_expr(e.right, vm))
@@ -172,8 +223,34 @@ SPECS += [
      {"off_F": "o.f", "pop_F": "p.f"},
      "(p o : Ind1 α) : improves false p o = {e}", "by simp [improves]"),
 ]
+GDE3 = "pymoode/algorithms/gde3.py"
+VAR = "pymoode/operators/variant.py"
+SPECS += [
+    ("gde3_relation", ["C05", "C06", "C07"], GDE3, "GDE3._advance", ("assign", "rel", 0), {"parent": "p", "off": "o"},
+     "(p o : IndM α) : {e} = getRelation p.cv o.cv p.f o.f", "rfl"),
+    ("gde3_slot", ["C05", "C06", "C07"], GDE3, "GDE3._advance", ("ifchain", 0), {"parent": "p", "off": "o", "rel": "rel"},
+     "(p o : IndM α) : gde3Slot p o = (fun rel : Int => {e}) (getRelation p.cv o.cv p.f o.f)", "rfl"),
+    ("n_parents", ["C09", "C10"], DEM, "DifferentialMutation.__init__", ("assign", "n_parents", 0), {"n_diffs": "nd"},
+     "(k : SelKind) (y : Nat) : (fun nd : Nat => {e}) (nDiffs k y) = nParents k y", "rfl"),
+    ("n_diffs_to", ["C09", "C10"], VAR, "DifferentialVariant.__init__", ("assign", "n_diffs", 1), {"n_diffs": "nd"},
+     "(y : Nat) : (fun nd : Nat => {e}) y = nDiffs .currentToBest y ∧ (fun nd : Nat => {e}) y = nDiffs .currentToRand y ∧ "
+     "(fun nd : Nat => {e}) y = nDiffs .randToBest y ∧ y = nDiffs .rand y ∧ y = nDiffs .best y ∧ y = nDiffs .ranked y",
+     "⟨rfl, rfl, rfl, rfl, rfl, rfl⟩"),
+]
+RNC = "pymoode/survival/rank_and_crowding/rnc.py"
+RNC_VM = {"len(survivors)": "acc.length", "len(I)": "f.length", "len(front)": "f.length", "n_survive": "nS"}
+SPECS += [
+    ("rnc_front_loop", ["C03", "C04", "C15"], RNC, "RankAndCrowding._do", ("if", 0), RNC_VM,
+     "(nS : Nat) (f s : List Nat) (fs : List (List Nat × List Nat)) (acc : List Nat) : frontLoop nS ((f, s) :: fs) acc = "
+     "if {e} = true then frontLoop nS fs (acc ++ s.take (f.length - {e1})) else frontLoop nS fs (acc ++ f)", "by simp [frontLoop]"),
+    ("rnc_n_remove", ["C15"], RNC, "RankAndCrowding._do", ("assign", "n_remove", 0), RNC_VM,
+     "(nS : Nat) (f : List Nat) (fs : List (List Nat)) (have_ : Nat) (h : have_ + f.length > nS) : "
+     "nRemoveSeq nS (f :: fs) have_ = (fun acc : List Nat => {e}) (List.replicate have_ 0) :: nRemoveSeq nS fs nS",
+     "by simp [nRemoveSeq, h]"),
+]
 # extra selections needed by multi-term statements: name -> [(placeholder, selector, vm)]
 EXTRA = {
+    "rnc_front_loop": [("e1", ("assign", "n_remove", 0), RNC_VM)],
     "improves_constrained": [("e1", ("mask", "ret", 1), {"pop_feas": "p.feas", "off_feas": "o.feas"}),
                              ("e2", ("mask", "ret", 2), {"pop_feas": "p.feas", "off_feas": "o.feas", "off_F": "o.f", "pop_F": "p.f"})],
 }
@@ -182,6 +259,9 @@ HEADER = """import PymoodeModel.Repair
 import PymoodeModel.Mutation
 import PymoodeModel.Crossover
 import PymoodeModel.Replacement
+import PymoodeModel.Selection
+import PymoodeModel.Algo
+import PymoodeModel.RankCrowd
 import Mathlib.Algebra.Order.Field.Basic
 set_option linter.unusedVariables false
 set_option linter.unusedSimpArgs false
